@@ -10,6 +10,7 @@ import (
 	"log/slog"
 	"runtime"
 	"strings"
+	"time"
 
 	wire "github.com/jeroenrinzema/psql-wire"
 	"verif/engine/memnet"
@@ -106,6 +107,9 @@ type Conn struct {
 func (c *Conn) Step(b []byte) ([]byte, memnet.Status) {
 	c.C.Push(b)
 	st := c.C.Await()
+	if st == memnet.Closed {
+		Settle()
+	}
 	out := c.C.Take()
 	c.Raw = append(c.Raw, out...)
 	return out, st
@@ -122,10 +126,53 @@ func (c *Conn) StepSegs(segs ...[]byte) ([]byte, memnet.Status) {
 	return out, st
 }
 
+// Settle waits until no connection goroutine of the library is still running:
+// every goroutine inside Server.serve must be parked in a memnet Read (waiting
+// for client input on some other, open connection) or gone. A closed
+// connection is only quiescent once its goroutine has finished — the library
+// may still run callbacks after it closed the transport. No timing is used
+// for the verdict: the loop ends on a structural condition of the stacks.
+func Settle() bool {
+	buf := make([]byte, 1<<16)
+	deadline := time.Now().Add(60 * time.Second)
+	for spin := 0; ; spin++ {
+		n := runtime.Stack(buf, true)
+		for n == len(buf) {
+			buf = make([]byte, 2*len(buf))
+			n = runtime.Stack(buf, true)
+		}
+		busy := false
+		for _, g := range strings.Split(string(buf[:n]), "\n\n") {
+			if !strings.Contains(g, ".(*Server).serve(") {
+				continue
+			}
+			if strings.Contains(g, "memnet.(*Conn).Read(") && strings.Contains(g, "sync.(*Cond).Wait(") {
+				continue // parked waiting for client input
+			}
+			busy = true
+			break
+		}
+		if !busy {
+			return true
+		}
+		if time.Now().After(deadline) {
+			return false
+		}
+		if spin < 20 {
+			runtime.Gosched()
+		} else {
+			time.Sleep(20 * time.Microsecond)
+		}
+	}
+}
+
 // End sends EOF and waits until the server closes the connection.
 func (c *Conn) End() ([]byte, memnet.Status) {
 	c.C.EOF()
 	st := c.C.AwaitClose()
+	if st == memnet.Closed {
+		Settle()
+	}
 	out := c.C.Take()
 	c.Raw = append(c.Raw, out...)
 	return out, st
